@@ -9,7 +9,7 @@ ID = "C17"
 LEVEL = "exploration"
 RULE = (
     "seeded @async_generator() bodies of up to 12 operations, each either an await (a batch item, a child task, a "
-    "constant future, a list/tuple/dict of 0-3 of them - empty containers included - or a bare None) or a Value (also instances of a Value subclass; one in five carrying a FUTURE - a constant future or a not yet started task - as its payload, which must arrive as that very object, uncomputed); bodies with awaits after the last Value, with no "
+    "constant future, a list/tuple/dict of 0-3 of them - empty containers included - or a bare None) or a Value (also instances of a Value subclass; some carrying as payload a FUTURE - a constant future or a not yet started task, which must arrive as that very object, uncomputed - or a matcher object that compares equal to everything); bodies with awaits after the last Value, with no "
     "Values, empty bodies, and bodies that re-yield the Values of a nested async generator. For each body: "
     "list_of_generator == the Values in program order; take_first(gen, n) for every n in 0..len+2 == the first n and "
     "the body's own operation counter shows nothing beyond the n-th Value was executed; two successive take_first "
@@ -31,7 +31,7 @@ def make_body(rnd, allow_nested=True):
         if r < 0.45:
             v += 1  # the first Value is 0: falsy values must be delivered like any other
             # one Value in five carries a FUTURE as its payload (generators handing out work for the caller to batch)
-            ops.append(["value", v, rnd.random() < 0.3, rnd.choice([None, None, None, None, "const", "task"])])
+            ops.append(["value", v, rnd.random() < 0.3, rnd.choice([None, None, None, None, None, None, "const", "task", "any", "wild"])])
         elif r < 0.9 or not allow_nested:
             shape = rnd.choice(["one", "one", "list", "tuple", "list", "tuple", "dict", "none"])
             k = 1 if shape == "one" else (0 if shape == "none" else rnd.choice([0, 1, 2, 3]))
@@ -113,7 +113,30 @@ def build(ctx):
         v = yield harness.HItem(ctx.rt, 1, "t%d" % next(ctx.ctr), ("c17t", x))
         return ("child", x)
 
+    class Wildcard(object):
+        """compares equal to everything (a matcher object, like unittest.mock.ANY)"""
+
+        def __eq__(self, other):
+            return True
+
+        def __ne__(self, other):
+            return False
+
+        __hash__ = object.__hash__
+
+    class AnyLike(object):
+        """like unittest.mock.ANY: only __eq__ is overridden (one instance per Value, so that identity tells them apart)"""
+
+        def __eq__(self, other):
+            return True
+
+        __hash__ = object.__hash__
+
     def fut(kind):
+        if kind == "any":
+            return AnyLike()
+        if kind == "wild":
+            return Wildcard()
         n = next(ctx.ctr)
         if kind == "item":
             return harness.HItem(ctx.rt, 0, "i%d" % n, ("c17", n))
